@@ -369,7 +369,7 @@ func (s *Server) checkAndAssignLocked(next jmessages) tasks {
 				t.hreq.method, string(t.hreq.params), t.err)
 			rpcErrorsCount.Add(1)
 		}
-		vhook.Event("srv.assign", s, id, t.hreq.method, t.err)
+		vhook.Event("srv.assign", s, id, t.hreq.method, t.err, t.hreq)
 	}
 	return ts
 }
